@@ -104,7 +104,7 @@ theorem tw_compactLoop_min (cfg : TWCfg Node) : ∀ (n : Nat) (a : TW Node), cfg
 structure InvB (S S' : List (Key × VH)) (store0 : Store Node) (cfg : TWCfg Node) (done todo : List (Step VH))
     (a : TW Node) : Prop where
   len : a.pos.length ≤ 256
-  good : cfg.top < a.pos.length → Good H S' a.store a.pos
+  good : (cfg.top < a.pos.length ∨ cfg.hasParent = false) → Good H S' a.store a.pos
   below : SubOK H S' a.store a.pos
   left : ∀ x, (x ++ [true]) <+: a.pos → cfg.top ≤ x.length →
     Good H S' a.store (x ++ [false]) ∧ SubOK H S' a.store (x ++ [false])
@@ -114,6 +114,7 @@ structure InvB (S S' : List (Key × VH)) (store0 : Store Node) (cfg : TWCfg Node
   anc : ∀ x, x <+: a.pos → x ≠ a.pos → 2 ≤ (sub S x).length
   logok : ∀ e ∈ a.log, LogOK H S' e
   cprok : ∀ e ∈ a.cpr, e.2 = specNode H S' e.1 ∧ e.1.length = cfg.top
+  cprnil : cfg.hasParent = false → a.cpr = []
 
 /-- every remaining terminal branches right of the walker's position no deeper than the next one does -/
 theorem todo_branch {S S' : List (Key × VH)} {done todo : List (Step VH)} {s : Step VH}
@@ -162,7 +163,7 @@ theorem invB_compact (hs : H.Sound) {S S' : List (Key × VH)} (hS' : KeysOK S')
     have h256 : a.pos.length ≤ 256 := hinv.len
     have hspec := tw_compactLoop_spec H hs hS' cfg (a.pos.length - L) a (a.pos.take L) (a.pos.drop L) hsplit
       (by rw [List.length_drop]) (by rw [hpl]; omega) (by rw [← hsplit]; exact h256)
-      (by rw [← hsplit]; exact hinv.good htop) (by rw [← hsplit]; exact hinv.below)
+      (by rw [← hsplit]; exact hinv.good (Or.inl htop)) (by rw [← hsplit]; exact hinv.below)
       (by
         intro s1 b1 hs1
         have hxc : (a.pos.take L ++ s1 ++ [b1]) <+: a.pos := by
@@ -219,9 +220,13 @@ theorem invB_compact (hs : H.Sound) {S S' : List (Key × VH)} (hS' : KeysOK S')
         by_cases hn0 : a.pos.length - L = 0
         · rw [hZero hn0]
           have : a.pos.take L = a.pos := List.take_of_length_le (by omega)
-          rw [this]; exact hinv.good htop
+          rw [this]; exact hinv.good (Or.inl htop)
         · have := hPos (by omega)
-          rw [if_neg (by intro h; omega)] at this
+          rw [if_neg (by
+            intro h
+            rcases hlt with h' | h'
+            · omega
+            · rw [h'] at h; exact absurd h.2 (by simp))] at this
           exact this.2
       · rw [hP]; exact hSub
       · intro x hx hxt
@@ -276,6 +281,12 @@ theorem invB_compact (hs : H.Sound) {S S' : List (Key × VH)} (hS' : KeysOK S')
               refine ⟨rfl, ?_⟩
               rw [hpl]; rw [hpl] at hcond; omega
           · rw [this.1] at he; exact hinv.cprok e he
+      · intro hpar
+        by_cases hn0 : a.pos.length - L = 0
+        · rw [hZero hn0]; exact hinv.cprnil hpar
+        · have := hPos (by omega)
+          rw [if_neg (by intro h; rw [hpar] at h; exact absurd h.2 (by simp))] at this
+          rw [this.1]; exact hinv.cprnil hpar
     · rw [hP, hpl]
       have : sharedBits (a.pos.take L) s.1 = p.length := by
         have e : a.pos.take L = p ++ false :: (w.take (L - (p.length + 1))) := by
@@ -285,5 +296,185 @@ theorem invB_compact (hs : H.Sound) {S S' : List (Key × VH)} (hS' : KeysOK S')
           rw [this, List.take_succ_cons]
         rw [e, ht]; exact sharedBits_leftOf _ _ _
       rw [this]; omega
+
+/-! ## jumping to the next terminal and replacing it -/
+
+theorem leftOf_trans {a b c : Path} (h1 : LeftOf a b) (h2 : LeftOf b c) : LeftOf a c := by
+  obtain ⟨p, s, r, rfl, rfl⟩ := h1
+  obtain ⟨p0, s0, r0, _, he, hc⟩ := leftOf_trans_depth p s r c h2
+  exact ⟨p0, s0, r0, he, hc⟩
+
+/-- the proper ancestors of a terminal of `S` are internal nodes of `S` -/
+theorem anc_of_terminal {S : List (Key × VH)} (hS : KeysOK S) (t x : Path) (ht : t.length ≤ 256) (hm : Mean S t)
+    (hx : x <+: t) (hne : x ≠ t) : 2 ≤ (sub S x).length := by
+  rcases hm with h | h
+  · subst h
+    have : x = [] := List.prefix_nil.mp hx
+    exact absurd this hne
+  · obtain ⟨b, rest, rfl⟩ := prefix_strict_cases hx (Ne.symm hne)
+    have hd : (x ++ b :: rest).dropLast = x ++ (b :: rest).dropLast := by
+      rw [List.dropLast_append_of_ne_nil (by simp)]
+    rw [hd] at h
+    have hl2 : (x ++ (b :: rest).dropLast).length ≤ 256 := by
+      have : (x ++ (b :: rest).dropLast).length ≤ (x ++ b :: rest).length := by simp
+      omega
+    have := sub_length_mono_prefix hS x ((b :: rest).dropLast) hl2
+    omega
+
+/-- what `replace_terminal` at the next terminal needs from the state it is entered in -/
+structure PreRep (S S' : List (Key × VH)) (store0 : Store Node) (cfg : TWCfg Node) (done : List (Step VH))
+    (a : TW Node) (t : Path) : Prop where
+  left : ∀ x, (x ++ [true]) <+: t → cfg.top ≤ x.length →
+    Good H S' a.store (x ++ [false]) ∧ SubOK H S' a.store (x ++ [false])
+  right : ∀ q, LeftOf t q → a.store q = store0 q
+  doneP : ∀ s ∈ done, s.2.isSome = true → LeftOf s.1 t
+  logok : ∀ e ∈ a.log, LogOK H S' e
+  cprok : ∀ e ∈ a.cpr, e.2 = specNode H S' e.1 ∧ e.1.length = cfg.top
+  cprnil : cfg.hasParent = false → a.cpr = []
+
+/-- a left sibling on the way to the next terminal that nothing has touched yet -/
+theorem fresh_left_sibling {S S' : List (Key × VH)} (hS : KeysOK S) {done todo : List (Step VH)} {s : Step VH}
+    (hso : ScriptOK S S' (done ++ s :: todo)) {store0 : Store Node} (hrep : Rep0 H S store0) (st : Store Node)
+    (x : Path) (hx : (x ++ [true]) <+: s.1)
+    (hdone : ∀ s' ∈ done, s'.2.isSome = true → LeftOf s'.1 (x ++ [false]))
+    (hst : ∀ q, (x ++ [false]) <+: q → st q = store0 q) :
+    Good H S' st (x ++ [false]) ∧ SubOK H S' st (x ++ [false]) := by
+  have hsmem : s ∈ done ++ s :: todo := by simp
+  have hlen := hso.len s hsmem
+  have hLt : LeftOf (x ++ [false]) s.1 := leftOf_of_branch (List.prefix_refl _) hx
+  apply clean_good H hso hrep st
+  · have := hx.length_le
+    simp at this ⊢; omega
+  · intro s' hs' hsome
+    rcases List.mem_append.mp hs' with hd | ht'
+    · exact Or.inl (hdone s' hd hsome)
+    · rcases List.mem_cons.mp ht' with h | h
+      · subst h; exact Or.inr hLt
+      · have hpw := (List.pairwise_append.mp hso.asc).2.1
+        have := (List.pairwise_cons.mp hpw).1 s' h
+        exact Or.inr (leftOf_trans hLt this)
+  · right
+    rw [List.dropLast_concat]
+    apply anc_of_terminal hS s.1 x hlen (hso.term s hsmem).2 (List.IsPrefix.trans (List.prefix_append _ _) hx)
+    intro e
+    rw [← e] at hx
+    have := hx.length_le
+    simp at this
+    omega
+  · exact hst
+
+theorem preRep_of_invB {S S' : List (Key × VH)} (hS : KeysOK S) {done todo : List (Step VH)} {s : Step VH}
+    (hso : ScriptOK S S' (done ++ s :: todo)) {store0 : Store Node} (hrep : Rep0 H S store0) (cfg : TWCfg Node)
+    (a : TW Node) (hinv : InvB H S S' store0 cfg done (s :: todo) a)
+    (hcomp : a.pos.length ≤ max (sharedBits a.pos s.1 + 1) cfg.top) :
+    PreRep H S S' store0 cfg done a s.1 := by
+  have hL : LeftOf a.pos s.1 := hinv.todoP s (List.mem_cons_self ..)
+  obtain ⟨p, w, r, hc, ht⟩ := id hL
+  have hsb : sharedBits a.pos s.1 = p.length := by rw [hc, ht]; exact sharedBits_leftOf p w r
+  have hclen : a.pos.length = p.length + 1 + w.length := by rw [hc]; simp; omega
+  have hdoneL : ∀ s' ∈ done, s'.2.isSome = true → LeftOf s'.1 s.1 := by
+    intro s' hs' hsome
+    rcases hinv.doneP s' hs' hsome with h | h
+    · exact leftOf_extend_left hL h
+    · exact leftOf_trans h hL
+  refine ⟨?_, ?_, hdoneL, hinv.logok, hinv.cprok, hinv.cprnil⟩
+  · intro x hx hxt
+    obtain ⟨u, hu⟩ := hx
+    have h : p ++ true :: r = x ++ true :: u := by rw [← ht, ← hu]; simp
+    rcases split_cases p x true true r u h with h1 | ⟨h2, _, _⟩ | h3
+    · -- above the branch point: a left sibling of the old position as well
+      exact hinv.left x (by rw [hc]; exact List.IsPrefix.trans h1 (List.prefix_append _ _)) hxt
+    · -- the branch point itself: the old position
+      subst h2
+      have hw : w = [] := by
+        rcases Nat.lt_or_ge cfg.top a.pos.length with hlt | hge
+        · have : w.length = 0 := by omega
+          exact List.eq_nil_of_length_eq_zero this
+        · omega
+      subst hw
+      have hpos : a.pos = x ++ [false] := hc
+      rw [← hpos]
+      exact ⟨hinv.good (Or.inl (by rw [hpos]; simp; omega)), hinv.below⟩
+    · -- below the branch point: untouched so far
+      apply fresh_left_sibling H hS hso hrep a.store x ⟨u, hu⟩
+      · intro s' hs' hsome
+        have hxL : LeftOf a.pos (x ++ [false]) := by
+          rw [hc]
+          exact leftOf_of_branch ⟨w, by simp⟩ (List.IsPrefix.trans h3 (List.prefix_append _ _))
+        rcases hinv.doneP s' hs' hsome with h | h
+        · exact leftOf_extend_left hxL h
+        · exact leftOf_trans h hxL
+      · intro q hq
+        apply hinv.right
+        rw [hc]
+        exact leftOf_of_branch ⟨w, by simp⟩ (List.IsPrefix.trans h3 (List.IsPrefix.trans (List.prefix_append _ _) hq))
+  · intro q hq
+    exact hinv.right q (leftOf_trans hL hq)
+
+theorem preRep_init {S S' : List (Key × VH)} (hS : KeysOK S) {done todo : List (Step VH)} {s : Step VH}
+    (hso : ScriptOK S S' (done ++ s :: todo)) {store0 : Store Node} (hrep : Rep0 H S store0) (cfg : TWCfg Node)
+    (a : TW Node) (hst : a.store = store0) (hlog : a.log = []) (hcpr : a.cpr = [])
+    (hdone : ∀ s' ∈ done, s'.2.isSome = false) :
+    PreRep H S S' store0 cfg done a s.1 := by
+  refine ⟨?_, ?_, ?_, ?_, ?_, ?_⟩
+  · intro x hx _
+    apply fresh_left_sibling H hS hso hrep a.store x hx
+    · intro s' hs' hsome; rw [hdone s' hs'] at hsome; cases hsome
+    · intro q _; rw [hst]
+  · intro q _; rw [hst]
+  · intro s' hs' hsome; rw [hdone s' hs'] at hsome; cases hsome
+  · intro e he; rw [hlog] at he; cases he
+  · intro e he; rw [hcpr] at he; cases he
+  · intro _; exact hcpr
+
+theorem invB_replace (hs : H.Sound) {S S' : List (Key × VH)} (hS : KeysOK S) (hS' : KeysOK S')
+    {done todo : List (Step VH)} {s : Step VH} (hso : ScriptOK S S' (done ++ s :: todo))
+    {store0 : Store Node} (cfg : TWCfg Node) (a : TW Node) (hpre : PreRep H S S' store0 cfg done a s.1) :
+    InvB H S S' store0 cfg (done ++ [s]) todo
+      (({ a with pos := s.1 } : TW Node).replaceTerminal H cfg (sub S' s.1)) := by
+  have hsmem : s ∈ done ++ s :: todo := by simp
+  have hlen := hso.len s hsmem
+  obtain ⟨r1, r2, r3, r4, r5, r6, r7⟩ := tw_replace_spec H hs hS' cfg ({ a with pos := s.1 } : TW Node) hlen
+  simp only at r1 r2 r3 r4 r5 r6 r7
+  refine ⟨by rw [r1]; exact hlen, fun _ => by rw [r1]; exact r2, by rw [r1]; exact r3, ?_, ?_, ?_, ?_, ?_, ?_, ?_, ?_⟩
+  · intro x hx hxt
+    rw [r1] at hx
+    obtain ⟨hg, hsu⟩ := hpre.left x hx hxt
+    have hnu : ∀ q, (x ++ [false]) <+: q → ¬ s.1 <+: q := by
+      intro q hq h
+      have h1 : (x ++ [true]) <+: q := List.IsPrefix.trans hx h
+      have := not_prefix_flip x true q h1
+      simp only [Bool.not_true] at this
+      exact this hq
+    constructor
+    · show _ = _
+      rw [r4 _ (hnu _ (List.prefix_refl _))]; exact hg
+    · intro q hq hne hl hm
+      rw [r4 _ (hnu _ hq)]; exact hsu q hq hne hl hm
+  · intro q hq
+    rw [r1] at hq
+    rw [r4 q (leftOf_not_prefix hq).1]
+    exact hpre.right q hq
+  · intro s' hs' hsome
+    rw [r1]
+    rcases List.mem_append.mp hs' with h | h
+    · exact Or.inr (hpre.doneP s' h hsome)
+    · rw [List.mem_singleton] at h; subst h; exact Or.inl (List.prefix_refl _)
+  · intro s' hs'
+    rw [r1]
+    have hpw := (List.pairwise_append.mp hso.asc).2.1
+    exact (List.pairwise_cons.mp hpw).1 s' hs'
+  · intro x hx hne
+    rw [r1] at hx hne
+    exact anc_of_terminal hS s.1 x hlen (hso.term s hsmem).2 hx hne
+  · intro e he
+    rcases r5 e he with h | h
+    · exact hpre.logok e h
+    · exact h
+  · intro e he
+    rw [r7] at he
+    exact hpre.cprok e he
+  · intro hpar
+    rw [r7]; exact hpre.cprnil hpar
 
 end Nomt.Walker
